@@ -470,6 +470,9 @@ func runC10(cfg lib.Cfg) error {
 	if err := process(plans, false); err != nil {
 		return err
 	}
+	if err := sharedDecoderCases(out, r.Fork()); err != nil {
+		return err
+	}
 	// thorough: extra declarations, evaluated by the extracted model only
 	for done := 0; done < nExtra; {
 		plans = nil
